@@ -7,7 +7,7 @@ if ! git diff --quiet; then echo "refusing: /repo has uncommitted changes"; exit
 git apply "$patch" || { echo "patch does not apply"; exit 2; }
 trap 'git -C /repo checkout -- . ; git -C /repo clean -fdq' EXIT
 for id in "$@"; do
-  out=$(/verif/bin/vcheck run "$id" ${TIER:+-tier $TIER} 2>&1); code=$?
+  out=$(VCHECK_EVIDENCE_DIR=/tmp/mutant-evidence /verif/bin/vcheck run "$id" ${TIER:+-tier $TIER} 2>&1); code=$?
   echo "== $(basename $patch) $id exit=$code"
   echo "$out" | grep -E "VIOLATION|rule=|HARNESS-ERROR|KNOWN-FINDING|exhaustive" | head -${LINES_MAX:-8}
 done
